@@ -460,7 +460,8 @@ fn rand_tokens(rng: &mut StdRng, mirror: &Value) -> Vec<String> {
     for _ in 0..rng.gen_range(0..7) {
         let t = match cur {
             Some(Value::Object(m)) if !m.is_empty() && rng.gen_bool(0.75) => m.keys().nth(rng.gen_range(0..m.len())).unwrap().clone(),
-            Some(Value::Array(a)) if rng.gen_bool(0.8) => rng.gen_range(0..a.len() + 1).to_string(),
+            // array indices, a quarter of them in a spelling other than the canonical one ("01", "+1", "001")
+            Some(Value::Array(a)) if rng.gen_bool(0.8) => { let i = rng.gen_range(0..a.len() + 1); match rng.gen_range(0..12) { 0 => format!("0{i}"), 1 => format!("+{i}"), 2 => format!("00{i}"), _ => i.to_string() } }
             _ => rand_token(rng),
         };
         cur = match cur {
